@@ -13,6 +13,7 @@
 #include <deque>
 #include <functional>
 #include <sstream>
+#include <tuple>
 #include "lib/ebus/data.h"
 #include "lib/ebus/datatype.h"
 #include "lib/ebus/message.h"
@@ -616,6 +617,12 @@ static const vector<DefLine>& defLines() {
     {"sra", "SIN", "-100", "-100000-100000", "range-reciprocal", {"-3000000", "-50000", "50000", "3000000"}},
     {"srb", "SIN", "-100", "-10000-10000", "range-reciprocal", {"-3000000", "-50000", "5000", "3000000"}},
     {"sd", "SIN", "100", "-10-10", "range-divisor", {"-300.00", "-5.00", "5.00", "300.00"}},
+    // same type id and divisor, different bit count / different step only: further collisions of the cache keys
+    {"b1", "BI0", "", "", "bits", {"0", "1", "3", "7"}},
+    {"b2", "BI0:2", "", "", "bits", {"0", "1", "3", "7"}},
+    {"b3", "BI0:3", "", "", "bits", {"0", "1", "3", "7"}},
+    {"u0s5", "UCH", "", "10-100:5", "range-step", {"5", "60", "150", "254"}},
+    {"u0s10", "UCH", "", "10-100:10", "range-step", {"5", "60", "150", "254"}},
   };
   return L;
 }
@@ -709,7 +716,12 @@ static void definitionIndependence(int k, int part, int nparts) {
     if (o.size() != 1 || o[0].find("load:done") != 0 || o[0].find("missing") != string::npos) {
       // a line that is refused on its own is refused deterministically: it takes no part in the selections
       // (a refused line ends the load of a file, which is not a dependence between definitions)
-      if (part == 0) R.count("definition_lines_refused_alone");
+      // ... but the line is valid by the documented format, so the refusal itself is reported
+      if (part == 0) {
+        R.count("definition_lines_refused_alone");
+        R.violation(string("C12/config-rejected/definition-line/") + defLines()[i].cls, "valid definition line refused when loaded alone: " + defLineText(i) + " -> " + (o.empty() ? string("child failed") : o[0].substr(0, 160)),
+                    "k=lines;o=" + std::to_string(i) + ";x=" + std::to_string(i) + ";load=1");
+      }
       continue;
     }
     if (part == 0) R.count("definition_lines_loaded_alone");
@@ -742,6 +754,158 @@ static void definitionIndependence(int k, int part, int nparts) {
   rec();
 }
 
+// ------------------------------------------------------------------------------------ (e) stream state left by other fields
+// Phase 1: every registered type (with divisor / value list variants) decodes every byte pattern of a small byte
+// alphabet in every format on a pristine stream; the formatting state (flags, precision, fill) each decode leaves
+// behind is collected: these are exactly the states in which a following field can find the shared stream.
+// Phase 2: every such decode is repeated on a stream preset to each collected state: result and text must be
+// identical.  The JSON key of a field is covered by decoding with output index 11 (two digits, differs in hex/oct).
+struct PVar { string type, div, values, id; };
+struct SState { std::ios_base::fmtflags fl; int prec; char fill; bool operator<(const SState& o) const { return std::tie(fl, prec, fill) < std::tie(o.fl, o.prec, o.fill); } };
+static string sstateStr(const SState& s) { char b[64]; snprintf(b, sizeof(b), "flags=%x,prec=%d,fill=%02x", (unsigned)s.fl, s.prec, (unsigned)(unsigned char)s.fill); return b; }
+static vector<PVar> poisonVariants() {
+  vector<PVar> v;
+  for (auto it = DataTypeList::getInstance()->begin(); it != DataTypeList::getInstance()->end(); ++it) {
+    const string& id = it->first;
+    if (id.find(',') != string::npos || !g_baseKeys.count(id)) continue;  // derived cache entries
+    const DataType* dt = it->second;
+    if (dt->isIgnored()) continue;
+    vector<string> specs;
+    if (dt->isAdjustableLength()) {
+      if (dt->getBitCount() % 8 == 0) { specs.push_back(id + ":2"); specs.push_back(id + ":1"); }
+      else { specs.push_back(id); if (dt->getBitCount() >= 2) specs.push_back(id + ":2"); }
+    } else {
+      specs.push_back(id);
+    }
+    for (const string& sp : specs) {
+      v.push_back(PVar{sp, "", "", id});
+      if (dt->isNumeric() && dt->getBitCount() >= 8) {
+        v.push_back(PVar{sp, "10", "", id});
+        v.push_back(PVar{sp, "-10", "", id});
+        if (!dt->hasFlag(EXP) && !dt->hasFlag(DAY)) v.push_back(PVar{sp, "", "1=one;10=ten;18=x12", id});
+      }
+    }
+  }
+  return v;
+}
+static const DataField* poisonField(const PVar& pv) {
+  vector<std::map<string, string>> rows(1);
+  rows[0]["name"] = "f"; rows[0]["part"] = "m"; rows[0]["type"] = pv.type;
+  if (!pv.div.empty()) rows[0]["divisor"] = pv.div;
+  if (!pv.values.empty()) rows[0]["values"] = pv.values;
+  const DataField* f = nullptr;
+  string err;
+  errno = 0;
+  if (DataField::create(true, false, false, MAX_POS, g_templates, &rows, &err, &f) != RESULT_OK) return nullptr;
+  return f;
+}
+static const int POISON_FORMATS = 5;
+static string poisonDecode(const DataField* f, const vector<unsigned char>& data, int fmtIdx, std::ostream* os) {
+  static const OutputFormat fm[POISON_FORMATS] = {OF_NONE, OF_NAMES | OF_JSON, OF_JSON, OF_JSON, OF_NAMES | OF_NUMERIC | OF_VALUENAME};
+  MasterSymbolString m;
+  for (unsigned char c : {0x10, 0xfe, 0xff, 0xff}) m.push_back(c);
+  m.push_back((unsigned char)data.size());
+  for (unsigned char c : data) m.push_back(c);
+  errno = 0;
+  result_t r = f->read(m, 0, false, nullptr, -1, fm[fmtIdx], fmtIdx == 3 ? 11 : -1, os);
+  R.transitions++;
+  return string(getResultCode(r)) + "|" + static_cast<std::ostringstream*>(os)->str();
+}
+static void presetStream(std::ostringstream* os, const SState& s) { os->flags(s.fl); os->precision(s.prec); os->fill(s.fill); }
+static bool g_poisonFull2 = false;  // thorough: all patterns of 1- and 2-byte types
+static vector<vector<unsigned char>> poisonPatterns(size_t n) {
+  static const unsigned char A12[] = {0x00, 0x01, 0x02, 0x05, 0x0a, 0x12, 0x31, 0x58, 0x63, 0x80, 0x99, 0xff};
+  static const unsigned char A8[] = {0x00, 0x01, 0x02, 0x0a, 0x31, 0x58, 0x99, 0xff};
+  static unsigned char ALL[256];
+  for (int i = 0; i < 256; i++) ALL[i] = (unsigned char)i;
+  vector<vector<unsigned char>> out;
+  if (n == 0 || n > 5) return out;
+  const unsigned char* a = n <= 3 ? A12 : A8;
+  size_t k = n <= 3 ? 12 : (n == 4 ? 8 : 4);
+  if (g_poisonFull2 && n <= 2) { a = ALL; k = 256; }
+  vector<size_t> idx(n, 0);
+  while (true) {
+    vector<unsigned char> p(n);
+    for (size_t i = 0; i < n; i++) p[i] = a[idx[i]];
+    out.push_back(p);
+    size_t i = 0;
+    while (i < n && ++idx[i] == k) { idx[i] = 0; i++; }
+    if (i == n) break;
+  }
+  return out;
+}
+// which attribute of the preset state makes the difference
+static string poisonAttr(const DataField* f, const vector<unsigned char>& d, int fmt, const SState& s, const string& base) {
+  std::ostringstream pr;
+  SState p0{pr.flags(), (int)pr.precision(), pr.fill()};
+  SState onlyBase = p0; onlyBase.fl = (p0.fl & ~std::ios_base::basefield) | (s.fl & std::ios_base::basefield);
+  SState onlyFill = p0; onlyFill.fill = s.fill;
+  SState onlyFloat = p0; onlyFloat.fl = (p0.fl & ~std::ios_base::floatfield) | (s.fl & std::ios_base::floatfield); onlyFloat.prec = s.prec;
+  struct { const char* n; SState st; } tries[] = {{"basefield", onlyBase}, {"fill", onlyFill}, {"floatfield-precision", onlyFloat}};
+  for (auto& t : tries) { std::ostringstream os; presetStream(&os, t.st); if (poisonDecode(f, d, fmt, &os) != base) return t.n; }
+  return "combined";
+}
+static string poisonWhat(const PVar& pv, int fmt, const string& base, const string& got) {
+  if (fmt == 3) {
+    size_t cb = base.find("\":"), cg = got.find("\":");
+    if (cb != string::npos && cg != string::npos && base.substr(cb) == got.substr(cg)) return "json-index-key";
+  }
+  return pv.id.substr(0, pv.id.find(':')) + (pv.div.empty() ? "" : ".div") + (pv.values.empty() ? "" : ".list");
+}
+static string poisonCase(const PVar& pv, const vector<unsigned char>& d, int fmt, const SState& s) {
+  char b[64]; snprintf(b, sizeof(b), ";f=%d;fl=%x;p=%d;c=%02x", fmt, (unsigned)s.fl, s.prec, (unsigned)(unsigned char)s.fill);
+  return "k=poison;t=" + pv.type + ";d=" + pv.div + ";v=" + hexs(pv.values) + ";b=" + vp::hex(d.data(), d.size()) + b;
+}
+static void poisonedStreams(int part, int nparts) {
+  vector<PVar> vars = poisonVariants();
+  vector<const DataField*> fields;
+  vector<size_t> lens;
+  for (auto& pv : vars) { const DataField* f = poisonField(pv); fields.push_back(f); lens.push_back(f ? f->getLength(pt_masterData, MAX_POS) : 0); }
+  // phase 1
+  std::set<SState> states;
+  std::ostringstream pristine;
+  SState p0{pristine.flags(), (int)pristine.precision(), pristine.fill()};
+  for (size_t i = 0; i < vars.size(); i++) {
+    if (!fields[i]) continue;
+    for (auto& d : poisonPatterns(lens[i])) for (int fmt = 0; fmt < POISON_FORMATS; fmt++) {
+      std::ostringstream os;
+      poisonDecode(fields[i], d, fmt, &os);
+      SState s{os.flags(), (int)os.precision(), os.fill()};
+      if (s < p0 || p0 < s) states.insert(s);
+    }
+  }
+  if (part == 0) {
+    string all;
+    for (auto& s : states) all += " [" + sstateStr(s) + "]";
+    R.sample("stream states left behind by some field decode (" + std::to_string(states.size()) + "):" + all.substr(0, 600));
+    R.counters["stream_states_left_by_fields"] = states.size();
+    R.counters["stream_state_type_variants"] = vars.size();
+  }
+  // phase 2
+  for (size_t i = 0; i < vars.size(); i++) {
+    if (!fields[i] || (int)(i % (size_t)nparts) != part) continue;
+    if (R.expired()) break;
+    for (auto& d : poisonPatterns(lens[i])) for (int fmt = 0; fmt < POISON_FORMATS; fmt++) {
+      std::ostringstream b0;
+      string base = poisonDecode(fields[i], d, fmt, &b0);
+      for (auto& s : states) {
+        std::ostringstream os;
+        presetStream(&os, s);
+        string got = poisonDecode(fields[i], d, fmt, &os);
+        R.evaluations++; R.tracesValidated++;
+        if (got != base) {
+          string attr = poisonAttr(fields[i], d, fmt, s, base);
+          R.violation("C12/stream-state-dependent/" + attr + "/" + poisonWhat(vars[i], fmt, base, got),
+                      vars[i].type + (vars[i].div.empty() ? "" : "," + vars[i].div) + (vars[i].values.empty() ? "" : " values " + vars[i].values) + " data " + vp::hex(d.data(), d.size()) +
+                      " format " + std::to_string(fmt) + ": on a pristine stream '" + vp::jsonEscape(base) + "', on a stream left with " + sstateStr(s) + " '" + vp::jsonEscape(got) + "'",
+                      poisonCase(vars[i], d, fmt, s));
+        }
+      }
+      R.distinct(vp::fnv("poison|" + vars[i].type + "|" + vars[i].div + "|" + vars[i].values + "|" + vp::hex(d.data(), d.size()) + "|" + std::to_string(fmt)));
+    }
+  }
+}
+
 // ------------------------------------------------------------------------------------ replay
 static int replay(const string& c) {
   auto m = vp::parseCase(c);
@@ -756,6 +920,24 @@ static int replay(const string& c) {
     printf("%s\nVIOLATES\n", firstDiff(ref, o).c_str());
     return 1;
   }
+  if (m["k"] == "poison") {
+    PVar pv{m["t"], m["d"], unhexs(m["v"]), m["t"]};
+    const DataField* f = poisonField(pv);
+    if (!f) { printf("definition refused\n"); return 2; }
+    vector<unsigned char> d = unhexBytes(m["b"]);
+    int fmt = atoi(m["f"].c_str());
+    SState st{(std::ios_base::fmtflags)strtoul(m["fl"].c_str(), 0, 16), atoi(m["p"].c_str()), (char)strtoul(m["c"].c_str(), 0, 16)};
+    std::ostringstream a, b;
+    string base = poisonDecode(f, d, fmt, &a);
+    presetStream(&b, st);
+    string got = poisonDecode(f, d, fmt, &b);
+    printf("field %s%s%s data %s format %d%s\n", pv.type.c_str(), pv.div.empty() ? "" : ("," + pv.div).c_str(), pv.values.empty() ? "" : (" values " + pv.values).c_str(), m["b"].c_str(), fmt, fmt == 3 ? " (JSON without names, output index 11)" : "");
+    printf("pristine stream: '%s'\n", vp::jsonEscape(base).c_str());
+    printf("stream left with %s: '%s'\n", sstateStr(st).c_str(), vp::jsonEscape(got).c_str());
+    if (got == base) { printf("OK\n"); return 0; }
+    printf("attribute: %s\nVIOLATES\n", poisonAttr(f, d, fmt, st, base).c_str());
+    return 1;
+  }
   if (m["k"] == "lines") {
     vector<int> order;
     { std::istringstream os(m["o"]); string t; while (std::getline(os, t, '.')) order.push_back(atoi(t.c_str())); }
@@ -765,6 +947,12 @@ static int replay(const string& c) {
     for (int i : order) printf("  [%d] %s\n", i, defLineText((size_t)i).c_str());
     size_t pos = std::find(order.begin(), order.end(), x) - order.begin();
     if (a.size() != 1 || pos >= o.size()) { printf("child failed\nVIOLATES\n"); return 1; }
+    if (m["load"] == "1") {
+      bool okl = a[0].find("load:done") == 0 && a[0].find("missing") == string::npos;
+      printf("loaded alone: %s", a[0].substr(0, a[0].find('\n') + 1).c_str());
+      printf(okl ? "OK\n" : "VIOLATES (valid definition refused)\n");
+      return okl ? 0 : 1;
+    }
     if (a[0] == o[pos]) { printf("line %d behaves as when loaded alone\nOK\n", x); return 0; }
     printf("line %d: %s (first: loaded alone)\nVIOLATES\n", x, firstDiff(a[0], o[pos]).c_str());
     return 1;
@@ -921,6 +1109,10 @@ int main(int argc, char** argv) {
 
   // (d) independence of definitions that meet in the derived type cache
   definitionIndependence((int)A.getInt("lines", thorough ? 4 : 3), A.part, A.nparts);
+
+  // (e) formatting state left on the shared stream by other fields
+  g_poisonFull2 = thorough;
+  poisonedStreams(A.part, A.nparts);
 
   R.note("states/transitions of the hashed search are reported by partition 0 only; the other partitions repeat it silently to validate the stateless enumeration against its visited set");
   R.write(A.out);
